@@ -161,9 +161,10 @@ Definition P_C11 (k : rcase) (o : val) : bool :=
           && subset (all_p c) (all_p R)
           (* nothing is invented: every prefix of the result is an old prefix or a value of the remapping *)
           && subset (all_p R) (all_p c ++ map snd m)
-          (* a pair old->new with old known and new unused (and not the target of another pair, not a key) renames old's record *)
+          (* a pair old->new with old known and new unused (and not the target of another pair) renames old's record; new may itself
+             be a key: its own pair comes earlier in the ordering, when new is still unknown, and is skipped *)
           && forallb (fun on => let '(old, new) := on in
-               if known_prefix c old && negb (known_prefix c new) && negb (mem new (map fst m))
+               if known_prefix c old && negb (known_prefix c new)
                   && Nat.eqb (length (filter (str_eqb new) (map snd m))) 1
                then match owner_by_prefix c old, owner_by_prefix R new with
                     | Some r, Some r' => str_eqb (r_uri r) (r_uri r') && str_eqb (r_prefix r') new
